@@ -183,7 +183,9 @@ def case_allocate(ctx, spec):
         if q != math.floor(q):
             raise Violation("non-integral quantity %r in integer mode [%s]" % (q, cls), signature="non-integer:" + cls)
         # maximal: one more unit would not fit (beyond 2**52 'one more unit' is not representable, any float is whole)
-        if abs(q) < 2.0**52 and cost(q + 1) <= amount - tol:
+        # (no slack: the harness evaluates the cost with the same expression bt's own fit test uses, so a quantity whose cost is at most
+        # the amount here is one bt must accept - an amount worth exactly k units buys k units)
+        if abs(q) < 2.0**52 and cost(q + 1) <= amount:
             qb = best_integer_q(cost, amount, unit)
             raise Violation("not the largest quantity: traded q=%r (cost %r) but q=%r fits amount=%r (cost %r) [%s]" % (q, c, qb, amount, cost(qb), cls), signature="not-maximal:" + cls)
     else:
